@@ -21,5 +21,5 @@ def harnesses(tier):
          'cfg': {'prop': 'C11', 'N': 3, 'nW': 2, 'seqlen': 3, 'ops': graph.ALL_OPS}},
         {'name': 'attach-N4-W1', 'fn': graph.h_step,
          'cfg': {'prop': 'C11', 'N': 4, 'nW': 1, 'seqlen': 1, 'ops': graph.ATTACH_OPS}},
-        {'name': 'remove-attach-N4', 'fn': graph.h_remove_attach, 'cfg': {'N': 4, 'seqlen': 1, 'links': False}},
+        {'name': 'remove-attach-N4', 'fn': graph.h_remove_attach, 'cfg': {'N': 4, 'seqlen': 2, 'links': False}},
     ]
